@@ -40,7 +40,9 @@ def strategy(tier):
         nsteps = len(ops)
         bs = None if big else draw(st.lists(st.integers(1, nsteps - 1), min_size=2, max_size=5,
                                             unique=True))
-        return {'spec': spec, 'ops': ops, 'bs': bs}
+        # counter 'n': fragments mutate a nested list in place; conditions read it through __old__
+        return {'spec': spec, 'ops': ops, 'bs': bs,
+                'counter': draw(st.sampled_from(['v', 'n']))}
     return cases()
 
 
@@ -84,7 +86,7 @@ def first_diff(a, b):
 
 def oracle(case):
     from ..cli import sha
-    spec = probes.instrument(case['spec'], contracts=True)
+    spec = probes.instrument(case['spec'], contracts=True, counter=case.get('counter', 'v'))
     ops = case['ops']
     viol, labels, keys = [], {}, []
     d0 = fresh(spec)
